@@ -66,8 +66,26 @@ func ruleN8(p *Prog, r *Report) {
 			eachInstr(fn, func(y ssa.Instruction) {
 				if st, ok := y.(*ssa.Store); ok {
 					if f, ok := asFieldAddr(st.Addr); ok && f.Field == "root" && f.Owner == fr.Owner && sameValue(f.Base, fr.Base) {
-						if _, isAlloc := canon(stripIface(st.Val)).(*ssa.Alloc); isAlloc {
+						switch v := canon(stripIface(st.Val)).(type) {
+						case *ssa.Alloc:
 							rootReset = true
+						case *ssa.Call:
+							// a private constructor: every return hands back an object it allocated
+							if g := v.Call.StaticCallee(); g != nil && g.Pkg == p.RootSSA && len(g.Blocks) > 0 {
+								fresh := true
+								for _, ret := range returnsOf(g) {
+									if len(ret.Results) == 0 {
+										fresh = false
+										continue
+									}
+									if _, ok := canon(stripIface(ret.Results[0])).(*ssa.Alloc); !ok {
+										fresh = false
+									}
+								}
+								if fresh {
+									rootReset = true
+								}
+							}
 						}
 					}
 				}
